@@ -21,8 +21,11 @@ TInit == /\ tid \in 1..Len(Traces) /\ l = 1
 IsEvent(e) == l <= Len(Steps_) /\ Ev.act = e /\ l' = l + 1 /\ UNCHANGED tid
 \* observation of the post-state, with the eager Deliver applied
 EagerP == caller' = "waiting" /\ verified' /\ fut'.k # "pending"
+\* how a call ends, as far as the property distinguishes it: a response, a pin refusal, the timeout - or "an exception that
+\* names the problem", whichever exception that is (the driver logs the same classes)
+Cls(c) == IF c \in {"waiting", "response", "error:Timeout", "error:CertificateChanged", "error:CertificateUnreadable"} THEN c ELSE "error"
 ObsMatch == /\ sentReq' = Ev.sentReq /\ lost' = Ev.lost
-            /\ Ev.caller = (IF EagerP THEN (IF fut'.k = "result" THEN "response" ELSE "error:" \o fut'.why) ELSE caller')
+            /\ Ev.caller = Cls(IF EagerP THEN (IF fut'.k = "result" THEN "response" ELSE "error:" \o fut'.why) ELSE caller')
             /\ Ev.cliClosed = (IF EagerP THEN TRUE ELSE cliClosed')
 TNext == \/ IsEvent("Verify") /\ Verify /\ ObsMatch
          \/ IsEvent("Rx") /\ Rx(Ev.p) /\ ObsMatch
